@@ -20,7 +20,7 @@ def main():
     k = sys.argv[1]
     w = json.load(sys.stdin)
     import importlib
-    for m in ("r_router", "r_switch", "r_codec", "r_buffer", "r_numbers", "r_driver", "r_client", "r_transport"):
+    for m in ("r_router", "r_switch", "r_codec", "r_buffer", "r_numbers", "r_driver", "r_client", "r_transport", "r_e2e"):
         try:
             importlib.import_module(m)
         except ModuleNotFoundError as e:
